@@ -275,6 +275,107 @@ class Audit:
         for fam, val in self.DOC:
             self.check_doc(fam, val)
 
+    # ---- H: country-dependent setters: constants == documented function of the row's cells (cells read with the csv
+    #         module here, independently of pandas / the code under test)
+    MONTHS = ["JAN", "FEB", "MAR", "APR", "MAY", "JUN", "JUL", "AUG", "SEP", "OCT", "NOV", "DEC"]
+
+    def csv_rows(self):
+        if not hasattr(self, "_csv"):
+            import csv
+            with open("data/no_food_trade/computer_readable_combined.csv") as f:
+                self._csv = {r["iso3"]: r for r in csv.DictReader(f)}
+        return self._csv
+
+    def expected_country(self, c, waste_col):
+        f = lambda col: float(c[col])
+        E = {}
+        I = "init_country_food_system_properties"
+        for key, col in [("POP", "population"), ("BASELINE_CROP_KCALS", "crop_kcals"), ("BASELINE_CROP_FAT", "crop_fat"),
+                         ("BASELINE_CROP_PROTEIN", "crop_protein"), ("BIOFUEL_KCALS", "biofuel_kcals"), ("BIOFUEL_FAT", "biofuel_fat"),
+                         ("BIOFUEL_PROTEIN", "biofuel_protein"), ("FEED_KCALS", "feed_kcals"), ("FEED_FAT", "feed_fat"),
+                         ("FEED_PROTEIN", "feed_protein"), ("INITIAL_MILK_CATTLE", "dairy_cows"), ("INIT_SMALL_ANIMALS", "small_animals"),
+                         ("INIT_MEDIUM_ANIMALS", "medium_animals"), ("INIT_LARGE_ANIMALS_WITH_MILK_COWS", "large_animals"),
+                         ("SCP_GLOBAL_PRODUCTION_FRACTION", "percent_of_global_capex"),
+                         ("CS_GLOBAL_PRODUCTION_FRACTION", "percent_of_global_production"),
+                         ("INITIAL_SEAWEED_FRACTION", "initial_seaweed_fraction"), ("SEAWEED_NEW_AREA_FRACTION", "new_area_fraction"),
+                         ("SEAWEED_MAX_AREA_FRACTION", "max_area_fraction"), ("POWER_LAW_IMPROVEMENT", "power_law_improvement"),
+                         ("ROTATION_IMPROVEMENTS.POWER_LAW_IMPROVEMENT", "power_law_improvement"),
+                         ("INITIAL_BUILT_SEAWEED_FRACTION", "initial_built_fraction"), ("INITIAL_CROP_AREA_FRACTION", "fraction_crop_area"),
+                         ("FISH_DRY_CALORIC_ANNUAL", "aq_kcals"), ("FISH_FAT_TONS_ANNUAL", "aq_fat"), ("FISH_PROTEIN_TONS_ANNUAL", "aq_protein"),
+                         ("TONS_MILK_ANNUAL", "dairy"), ("TONS_BEEF_ANNUAL", "beef"),
+                         ("MILK_YIELD_KG_PER_MILK_BEARING_ANIMAL_PER_YEAR", "milk_yield_kg_per_milk_bearing_animal_per_year"),
+                         ("KG_MEAT_PER_PIG", "kg_meat_per_pig"), ("KG_MEAT_PER_CHICKEN", "kg_meat_per_chicken")]:
+            E[key] = (I, f(col))
+        E["HUMAN_INEDIBLE_FEED_BASELINE_MONTHLY"] = (I, f("grasses_baseline") / 12)
+        E["INITIAL_CROP_AREA_HA"] = (I, f("crop_area_1000ha") * 1000)
+        E["TONS_CHICKEN_AND_PORK_ANNUAL"] = (I, f("chicken") + f("pork"))
+        for m in self.MONTHS:
+            E["END_OF_MONTH_STOCKS." + m] = (I, f("stocks_kcals_" + m.lower()))
+        for col in c:
+            if col.startswith("seaweed_growth_per_day_"):
+                E["SEAWEED_GROWTH_PER_DAY." + col[len("seaweed_growth_per_day_"):]] = (I, f(col))
+        E["COUNTRY_CODE"] = ("set_depending_on_option", c["iso3"])
+        W = {"retail_waste_baseline": "set_country_waste_to_baseline_prices", "retail_waste_price_double": "set_country_waste_to_doubled_prices",
+             "retail_waste_price_triple": "set_country_waste_to_tripled_prices"}[waste_col]
+        for key, col in [("SUGAR", "sugar"), ("CROPS", "crops"), ("MEAT", "meat"), ("MILK", "dairy"), ("SEAFOOD", "seafood"), ("SEAWEED", "seafood")]:
+            E["WASTE_DISTRIBUTION." + key] = (W, f("distribution_loss_" + col) * 100)
+        E["WASTE_RETAIL"] = (W, f(waste_col) * 100)
+        E["SEASONALITY"] = ("set_country_seasonality", [f(f"seasonality_m{i}") for i in range(1, 13)])
+        for i in range(1, 11):
+            E[f"RATIO_GRASSES_YEAR{i}"] = ("set_country_grasses_nuclear_winter", 1 + f(f"grasses_reduction_year{i}"))
+            E[f"RATIO_CROPS_YEAR{i}"] = ("set_nuclear_winter_country_disruption_to_crops", 1 + f(f"crop_reduction_year{i}"))
+        # the eleventh crop year repeats the tenth (the table has ten years)
+        E["RATIO_CROPS_YEAR11"] = ("set_nuclear_winter_country_disruption_to_crops", 1 + f("crop_reduction_year10"))
+        return E
+
+    def check_country(self, iso, waste_val="baseline_in_country"):
+        c = self.csv_rows()[iso]
+        waste_col = {"baseline_in_country": "retail_waste_baseline", "doubled_prices_in_country": "retail_waste_price_double",
+                     "tripled_prices_in_country": "retail_waste_price_triple"}[waste_val]
+        o = [(k, (waste_val if k == "waste" else v)) for k, v in self.B["C"]]
+        r = dispatch(o, self.row(iso))
+        self.cnt("H_country_rows")
+        inp = {"iso3": iso, "waste": waste_val}
+        if not r["ok"]:
+            self.fail(f"C13:country-row-rejected@run_scenario.set_depending_on_option:{iso}",
+                      f"country base configuration rejected for {iso}: {r.get('kind')} {r.get('msg')}", "country", inp)
+            return
+        got = fl(r["cp"])
+        bad = {}
+        for key, (setter, want) in self.expected_country(c, waste_col).items():
+            g = got.get(key)
+            if isinstance(want, str):
+                ok = g is not None and g.get("s") == want
+            elif isinstance(want, list):
+                ok = g is not None and "l" in g and len(g["l"]) == len(want) and all(
+                    abs(a - b) <= 1e-12 * max(1.0, abs(b)) for a, b in zip(g["l"], want))
+            else:
+                ok = g is not None and "n" in g and abs(g["n"] - want) <= 1e-12 * max(1.0, abs(want))
+            if not ok:
+                gv = None if g is None else g.get("n", g.get("l", g.get("s")))
+                bad.setdefault(setter, []).append((key, gv, want))
+        for setter, items in bad.items():
+            self.fail(f"C13:country-constant@{setter}:{iso}",
+                      f"{iso}: {setter} wrote {[(k, g) for k, g, _ in items[:3]]}, the row's cells give {[(k, w) for k, _, w in items[:3]]}"
+                      f" ({len(items)} constants differ)", "country",
+                      {**inp, "differs": [[k, g, w] for k, g, w in items[:6]]})
+
+    def part_H(self):
+        rows = self.csv_rows()
+        per_setter = {}
+        for n, iso in enumerate(rows):
+            before = len(self.failures)
+            self.check_country(iso, ["baseline_in_country", "doubled_prices_in_country", "tripled_prices_in_country"][n % 3])
+            # keep at most five rows per setter in the report (all are counted)
+            kept = []
+            for f in self.failures[before:]:
+                st = f["key"].split("@")[1].split(":")[0]
+                per_setter[st] = per_setter.get(st, 0) + 1
+                if per_setter[st] <= 5:
+                    kept.append(f)
+            self.failures[before:] = kept
+        self.obs["country_constant_rows_failing_per_setter"] = per_setter
+
     # ---- B
     def check_pair(self, a, b, glob, rid):
         from src.scenarios.scenarios import Scenarios
@@ -480,6 +581,8 @@ def run(payload):
             a.check_head(inp["species"], inp["code"], inp["value"])
         elif chk == "doc":
             a.check_doc(inp["fam"], inp["val"])
+        elif chk == "country":
+            a.check_country(inp["iso3"], inp.get("waste", "baseline_in_country"))
         elif chk == "frame":
             # frames are re-derived (expectation functions are not serialisable): re-run the whole family of frames
             a.part_D(species)
@@ -491,6 +594,7 @@ def run(payload):
     quick = payload.get("tier") == "quick"
     a.part_A()
     a.part_G()
+    a.part_H()
     a.part_B()
     a.part_D(species)
     all_codes = [str(x) for x in a.rows.table["iso3"]]
